@@ -290,11 +290,11 @@ def timeout_case(ctx, rng, k):
 
 def run(ctx):
     check_parser(ctx)
-    n_wait = ctx.pick(400, 6000)
+    n_wait = ctx.pick(400, 40000)
     for k in range(n_wait):
         if ctx.mine(k):
             wait_case(ctx, ctx.rng("wait", k), k)
-    n_to = ctx.pick(270, 4000)
+    n_to = ctx.pick(270, 26000)
     for k in range(n_to):
         if ctx.mine(k):
             timeout_case(ctx, ctx.rng("to", k), k)
